@@ -314,10 +314,15 @@ impl<'ctx> NaivePriceRepository<'ctx> {
                     continue;
                 }
             }
-            for (j, Entry(source, rates)) in match self.records.get(&prev) {
+            // HashMap doesn't have a stable order, while the order matters
+            // when there are several paths with the same distance.
+            // Visit in the name order to always pick up the same one.
+            let mut neighbors: Vec<(&Commodity<'ctx>, &Entry)> = match self.records.get(&prev) {
                 None => continue,
-                Some(x) => x,
-            } {
+                Some(x) => x.iter().collect(),
+            };
+            neighbors.sort_unstable_by_key(|(j, _)| j.as_str());
+            for (j, Entry(source, rates)) in neighbors {
                 let bound = rates.partition_point(|(record_date, _)| record_date <= &date);
                 log::debug!(
                     "found next commodity {} with date bound {}",
